@@ -349,7 +349,7 @@ bool kirsch_kfifo_queue<T, Policies...>::committed(marked_ptr segment, marked_va
 template <class T, class... Policies>
 void kirsch_kfifo_queue<T, Policies...>::advance_head(guard_ptr& head_current, marked_ptr tail_current) noexcept {
   // (7) - this acquire-load synchronizes-with the release-CAS (13)
-  const marked_ptr head_next_segment = head_current->next.load(std::memory_order_acquire);
+  marked_ptr head_next_segment = head_current->next.load(std::memory_order_acquire);
   if (head_current != head_.load(std::memory_order_relaxed)) {
     return;
   }
@@ -360,6 +360,10 @@ void kirsch_kfifo_queue<T, Policies...>::advance_head(guard_ptr& head_current, m
     if (tail_next_segment.get() == nullptr) {
       return;
     }
+    // head and tail refer to the same segment, so this is the successor of head as well. Nothing orders load (7)
+    // after the CAS (13) that appended the segment, i.e., (7) may still have returned nullptr even though we get
+    // here - and head_ must never be set to nullptr. So continue with the value of the later load.
+    head_next_segment = tail_next_segment;
 
     if (tail_current == tail_.load(std::memory_order_relaxed)) {
       marked_ptr new_tail(tail_next_segment.get(), tail_current.mark() + 1);
